@@ -51,11 +51,22 @@ def counter_bounded(func: FuncInfo, loop: ast.While):
                 assigned.add(n.id)
     # counters: names incremented by a positive constant at the top level of the body
     counters = {}
+    down = {}     # counters that count DOWN by a positive constant: name -> step
     early = True
     for st in loop.body:
         if isinstance(st, ast.AugAssign) and isinstance(st.op, ast.Add) and isinstance(st.target, ast.Name) and is_pos_const(st.value):
             if early:
                 counters[st.target.id] = st
+        elif isinstance(st, ast.AugAssign) and isinstance(st.op, ast.Sub) and isinstance(st.target, ast.Name) and is_pos_const(st.value):
+            if early:
+                counters[st.target.id] = st
+                down[st.target.id] = st.value.value
+        elif isinstance(st, ast.Assign) and len(st.targets) == 1 and isinstance(st.targets[0], ast.Name) and isinstance(st.value, ast.BinOp) \
+                and isinstance(st.value.op, ast.Sub) and isinstance(st.value.left, ast.Name) and st.value.left.id == st.targets[0].id \
+                and is_pos_const(st.value.right):
+            if early:
+                counters[st.targets[0].id] = st
+                down[st.targets[0].id] = st.value.right.value
         elif isinstance(st, ast.Assign) and len(st.targets) == 1 and isinstance(st.targets[0], ast.Name) and isinstance(st.value, ast.BinOp) \
                 and isinstance(st.value.op, ast.Add):
             t = st.targets[0].id
@@ -68,6 +79,7 @@ def counter_bounded(func: FuncInfo, loop: ast.While):
     if not counters:
         return False, "no variable is incremented by a positive constant unconditionally at the top level of the loop body"
     # each counter must be written only by that increment inside the loop and be initialised to a number before the loop
+    down_int_init = {}
     for c, inc in list(counters.items()):
         writes = [n for st in loop.body for n in ast.walk(st)
                   if isinstance(n, ast.Name) and n.id == c and isinstance(n.ctx, ast.Store)]
@@ -81,6 +93,17 @@ def counter_bounded(func: FuncInfo, loop: ast.While):
                 if any(isinstance(t, ast.Name) and t.id == c for t in tg) and isinstance(n.value, ast.Constant) \
                         and isinstance(n.value.value, (int, float)):
                     init = True
+                elif any(isinstance(t, ast.Name) and t.id == c for t in tg) and c in down and n.value is not None \
+                        and finite_bound(n.value, assigned):
+                    init = True    # a countdown starts from a finite loop-invariant budget
+                    int_init = None
+                    if isinstance(n.value, ast.Name):
+                        r = getattr(func.module, "constants", {}).get(n.value.id)
+                        if isinstance(r, ast.Constant) and isinstance(r.value, int) and not isinstance(r.value, bool):
+                            int_init = r.value
+                    down_int_init[c] = int_init
+                if init and c in down and isinstance(n.value, ast.Constant) and any(isinstance(t, ast.Name) and t.id == c for t in tg):
+                    down_int_init[c] = n.value.value if isinstance(n.value.value, int) else None
         if not init:
             del counters[c]
     if not counters:
@@ -93,10 +116,22 @@ def counter_bounded(func: FuncInfo, loop: ast.While):
         for t in conj:
             if isinstance(t, ast.Compare) and len(t.ops) == 1:
                 l, op, r = t.left, t.ops[0], t.comparators[0]
-                if isinstance(l, ast.Name) and l.id in counters and type(op) in allow_ops and finite_bound(r, assigned):
-                    out.append((l.id, r))
                 flip = {ast.Lt: ast.Gt, ast.LtE: ast.GtE, ast.Gt: ast.Lt, ast.GtE: ast.LtE, ast.Eq: ast.Eq}
-                if isinstance(r, ast.Name) and r.id in counters and flip.get(type(op)) in allow_ops and finite_bound(l, assigned):
+
+                def allowed(cname, o, bound):
+                    if cname not in down:
+                        return o in allow_ops
+                    # a countdown is bounded from below: the mirror image of the comparison
+                    if flip.get(o) not in allow_ops:
+                        return False
+                    if o is ast.Eq:   # `left == 0` is only reached for certain when an integer budget is stepped by 1 towards an integer
+                        return down[cname] == 1 and isinstance(down_int_init.get(cname), int) and isinstance(bound, ast.Constant) \
+                            and isinstance(bound.value, int) and bound.value <= down_int_init[cname]
+                    return True
+                if isinstance(l, ast.Name) and l.id in counters and allowed(l.id, type(op), r) and finite_bound(r, assigned):
+                    out.append((l.id, r))
+                if isinstance(r, ast.Name) and r.id in counters and flip.get(type(op)) is not None and allowed(r.id, flip[type(op)], l) \
+                        and finite_bound(l, assigned):
                     out.append((r.id, l))
         return out
 
@@ -145,6 +180,16 @@ def iter_is_finite(func, env, it, depth=0):
                        ("itertools.count", "itertools.cycle", "itertools.repeat", "count", "cycle", "repeat", "iter")]
             if not lazy and not endless:
                 return True, "call of %s (returns a finished object)" % c.qualname
+            if lazy and not endless:
+                # a generator yields once per pass of its own loops, and those loops are judged by T1 / T2 like any other
+                return True, "generator %s (its own loops are judged by T1/T2)" % c.qualname
+        if isinstance(f, ast.Name):
+            cv = getattr(func.module, "constants", {}).get(f.id)
+            if isinstance(cv, ast.Call) and ast.unparse(cv.func) in ("operator.itemgetter", "operator.attrgetter", "itemgetter", "attrgetter"):
+                return True, "%s is an item/attribute getter: it returns a tuple" % f.id
+        from ..repo import External
+        if isinstance(c, External) and c.dotted.startswith(("numpy.", "scipy.", "pandas.", "math.", "os.", "pathlib.", "json.", "operator.")):
+            return True, "library call %s returning a finished object" % c.dotted
         return False, "call %s" % ast.unparse(f)
     if isinstance(it, ast.GeneratorExp):
         return all(iter_is_finite(func, env, g.iter, depth + 1)[0] for g in it.generators), "generator over finite iterables"
@@ -152,6 +197,8 @@ def iter_is_finite(func, env, it, depth=0):
     if t.kind in ("list", "tuple", "dict", "str", "frame"):
         return True, t.kind
     if t.kind == "cls":
+        if getattr(t.cls, "is_namedtuple", False):
+            return True, "named tuple %s" % t.cls.name
         if "__getitem__" in t.cls.methods and "__iter__" not in t.cls.methods:
             # legacy sequence protocol: terminates when __getitem__ raises IndexError, i.e. when it indexes a list
             g = t.cls.methods["__getitem__"]
@@ -167,8 +214,10 @@ def iter_is_finite(func, env, it, depth=0):
         defs = [n for n in ast.walk(func.node) if isinstance(n, ast.Assign) and any(isinstance(x, ast.Name) and x.id == it.id for x in n.targets)]
         if defs and all(iter_is_finite(func, env, d.value, depth + 1)[0] for d in defs):
             return True, "defined from finite iterables"
-        if it.id in func.params:
+        if it.id in func.params or it.id in func.kwonly:
             return True, "parameter (a caller-supplied container)"
+        if it.id == func.vararg or it.id == func.kwarg:
+            return True, "*args / **kwargs (a tuple / dict built at the call)"
     if isinstance(it, ast.Attribute):
         return True, "attribute (a stored container)"
     if isinstance(it, ast.Subscript):
